@@ -176,20 +176,36 @@ fn tuple_alternatives(w: &WPat) -> Vec<&WPat> {
     }
 }
 
+#[derive(PartialEq)]
+enum Misprint {
+    No,
+    /// some re-ordering / repetition of the printed tuple elements denotes an uncovered value
+    DenotesUncovered,
+    /// some re-ordering is a pattern of the type whose u8 interval lies entirely above 255
+    AboveU8Max,
+}
+
 /// Would the witness denote an uncovered value if the printed tuple elements were put back in
 /// some order / multiplicity (the message prints tuple elements sorted and de-duplicated)?
-fn misprint_hypothesis(w: &WPat, sh: &Shape, uncovered: &[&Val]) -> bool {
-    let Shape::Tuple(ss) = sh else { return false };
+fn misprint_hypothesis(w: &WPat, sh: &Shape, values: &[Val], uncovered: &[&Val]) -> Misprint {
+    let Shape::Tuple(ss) = sh else { return Misprint::No };
+    let mut res = Misprint::No;
     for alt in tuple_alternatives(w) {
         if let WPat::Tuple(printed) = alt {
             for cand in unscramble_tuple(printed, ss.len()) {
-                if &cand != alt && cand.well_typed(sh) && uncovered.iter().any(|v| cand.denotes(v, sh)) {
-                    return true;
+                if &cand == alt || !cand.well_typed(sh) {
+                    continue;
+                }
+                if uncovered.iter().any(|v| cand.denotes(v, sh)) {
+                    return Misprint::DenotesUncovered;
+                }
+                if cand.has_interval_above_u8(sh) && !values.iter().any(|v| cand.denotes(v, sh)) {
+                    res = Misprint::AboveU8Max;
                 }
             }
         }
     }
-    false
+    res
 }
 
 fn evaluate(case: &Case, orc: &Oracle, values: &[Val], obs: &Observed) -> Vec<Finding> {
@@ -289,11 +305,22 @@ fn evaluate(case: &Case, orc: &Oracle, values: &[Val], obs: &Observed) -> Vec<Fi
                     continue;
                 }
                 let ex = show_val(uncovered[0], &sh);
-                let (key, why) = if !w.well_typed(&sh) {
-                    if misprint_hypothesis(&w, &sh, &uncovered) {
+                let misprint = misprint_hypothesis(&w, &sh, values, &uncovered);
+                let vacuous_above = (
+                    "witness-vacuous|scrutinee-position-is-u8|interval-entirely-above-255".to_string(),
+                    "denotes no value of the scrutinee type: its integer interval lies entirely above u8::MAX".to_string(),
+                );
+                let misprinted = (
+                    "witness-misprinted|tuple-elements-sorted-or-deduplicated".to_string(),
+                    "does not denote an uncovered value as printed; re-ordering / repeating the printed tuple elements (the message prints them sorted and de-duplicated) gives a pattern that does".to_string(),
+                );
+                let (key, why) = if misprint == Misprint::DenotesUncovered {
+                    misprinted
+                } else if !w.well_typed(&sh) {
+                    if misprint == Misprint::AboveU8Max {
                         (
-                            "witness-misprinted|tuple-elements-sorted-or-deduplicated".to_string(),
-                            "is not a pattern of the scrutinee type; re-ordering / repeating the printed tuple elements gives a pattern that does denote an uncovered value".to_string(),
+                            vacuous_above.0,
+                            format!("(tuple elements printed sorted) {}", vacuous_above.1),
                         )
                     } else {
                         (
@@ -303,21 +330,13 @@ fn evaluate(case: &Case, orc: &Oracle, values: &[Val], obs: &Observed) -> Vec<Fi
                     }
                 } else if !values.iter().any(|v| w.denotes(v, &sh)) {
                     if w.has_interval_above_u8(&sh) {
-                        (
-                            "witness-vacuous|scrutinee-position-is-u8|interval-entirely-above-255".to_string(),
-                            "denotes no value of the scrutinee type: its integer interval lies entirely above u8::MAX".to_string(),
-                        )
+                        vacuous_above
                     } else {
                         (
                             format!("witness-vacuous|other|{kind}|{feat}"),
                             "denotes no value of the scrutinee type".to_string(),
                         )
                     }
-                } else if misprint_hypothesis(&w, &sh, &uncovered) {
-                    (
-                        "witness-misprinted|tuple-elements-sorted-or-deduplicated".to_string(),
-                        "denotes only values that ARE covered; re-ordering / repeating the printed tuple elements gives a pattern that does denote an uncovered value".to_string(),
-                    )
                 } else {
                     (
                         format!("witness-covered|{kind}|{feat}"),
@@ -973,7 +992,11 @@ fn check_alone(
 fn run(a: &vhcore::Args) -> i32 {
     let t_start = Instant::now();
     let mut rep = vhcore::Reporter::from_args(a, "exploration");
-    let work = vhcore::work_dir(ID);
+    // scratch for the worker subprocesses; /verif/work/C14 itself also holds fix-*.patch files, so
+    // only the scratch sub-directory is wiped
+    let work = vhcore::verif_root().join("work").join(ID).join("scratch");
+    let _ = std::fs::remove_dir_all(&work);
+    std::fs::create_dir_all(&work).unwrap_or_else(|e| vhcore::machinery_failure(&format!("work dir: {e}")));
     let values = values_table();
 
     // 1. the declared space
@@ -1273,7 +1296,7 @@ fn replay(a: &vhcore::Args) -> i32 {
     let key = v["key"].as_str().unwrap_or("").to_string();
     println!("replaying {}", case.show());
     println!("recorded class key: {key}");
-    let work = vhcore::verif_root().join("work").join("C14replay");
+    let work = vhcore::verif_root().join("work").join(ID).join("replay-scratch");
     let _ = std::fs::remove_dir_all(&work);
     let _ = std::fs::create_dir_all(&work);
     let values = values_table();
